@@ -54,11 +54,13 @@ package manifest
 
 //@ func (*Manifest) Meta
 //@   mode int
+//@   pure
 //@   requires m.header != nil
 //@   ensures result == m.header.meta
 
 //@ func (*Manifest) Version
 //@   mode int
+//@   pure
 //@   requires m.header != nil
 //@   ensures result == m.header.version
 
